@@ -204,7 +204,8 @@ type vc19SV struct{ length, bits, chunk uint }
 
 func vc19SumVecParams() []vc19SV {
 	ps := []vc19SV{{1, 1, 1}, {4, 4, 3}, {3, 16, 7}, {10, 8, 9}, {2, 64, 11}, {1, 64, 1}, {8, 1, 3}, {5, 3, 100}, {6, 2, 12}, {3, 63, 64},
-		{33, 2, 1}} // 66 gadget calls: wire polynomials of 128 coefficients, NTT-based multiplication
+		{33, 2, 1}, // 66 gadget calls: wire polynomials of 128 coefficients, NTT-based multiplication
+		{17, 8, 2}} // 68 gadget calls of TWO inner products each: the NTT product is written into a scratch polynomial that is re-used
 	if lib.Thorough() {
 		ps = append(ps, vc19SV{100, 1, 10}, vc19SV{17, 5, 4}, vc19SV{4, 64, 256}, vc19SV{33, 3, 1}, vc19SV{2, 32, 8}, vc19SV{64, 2, 11})
 	}
@@ -285,7 +286,8 @@ type vc19H struct{ length, chunk uint }
 
 func vc19HistParams() []vc19H {
 	ps := []vc19H{{1, 1}, {2, 1}, {4, 3}, {4, 2}, {11, 3}, {100, 10}, {7, 7}, {5, 64}, {16, 4},
-		{70, 1}} // 70 gadget calls: NTT-based polynomial multiplication
+		{70, 1}, // 70 gadget calls: NTT-based polynomial multiplication
+		{130, 2}} // 65 gadget calls with chunk length 2 (re-used scratch polynomial in the parallel-sum gadget)
 	if lib.Thorough() {
 		ps = append(ps, vc19H{3, 2}, vc19H{64, 8}, vc19H{65, 8}, vc19H{255, 16}, vc19H{256, 1}, vc19H{1000, 32})
 	}
@@ -337,7 +339,8 @@ type vc19MH struct{ length, maxw, chunk uint }
 
 func vc19MHParams() []vc19MH {
 	ps := []vc19MH{{1, 1, 1}, {5, 2, 3}, {4, 4, 2}, {4, 2, 2}, {10, 2, 3}, {10, 0, 3}, {8, 7, 4}, {16, 1, 5}, {20, 10, 30}, {4, 4, 1},
-		{65, 3, 1}} // 67 gadget calls: NTT-based polynomial multiplication
+		{65, 3, 1}, // 67 gadget calls: NTT-based polynomial multiplication
+		{126, 2, 2}} // 64 gadget calls with chunk length 2
 	if lib.Thorough() {
 		ps = append(ps, vc19MH{100, 3, 10}, vc19MH{64, 64, 8}, vc19MH{33, 16, 7}, vc19MH{255, 128, 16}, vc19MH{2, 1, 2})
 	}
